@@ -155,9 +155,13 @@ def check(run, model, tier):
                             run.inst('LOCKSET.flag-access', f, 'read %s in %s' % (attr, n.text()), ok,
                                      '' if ok else 'flag read outside the critical section', node=x, obligation=True)
                     else:
-                        held = min(depths) >= 1 if f is get else True
+                        # __set__ enters either holding the lock (continuation of an augmented assignment) or takes it: its write of the flag is inside the critical
+                        # section as long as no release lies before it on any path
+                        held = min(depths) >= 1 if f is get else not any(r_ is n or g.exists_path(r_, n) for r_ in rel)
                         run.inst('LOCKSET.flag-access', f, 'write %s in %s' % (attr, n.text()), held,
-                                 '' if held else 'flag written outside the critical section', node=x, obligation=True)
+                                 '' if held else ('the hand-over flag is written after the lock has been given back: another thread that performs the read half of an augmented assignment '
+                                                  'in that gap has its "continuing" mark erased, its __set__ then takes the lock a second time and releases it once - the attribute\'s lock '
+                                                  'stays held and every later access from another thread blocks for good'), node=x, obligation=True)
                     continue
                 # the stored value (or the key/initial value used to reach it)
                 if f is get:
